@@ -44,7 +44,7 @@ def to_numpy(arr: Array) -> np.ndarray:
     for i, o in enumerate(arr.format.order):
         arg_order[o] = i
     arg_order = tuple(arg_order)
-    storage_shape = tuple(int(arr.shape[o]) for o in arg_order)
+    storage_shape = tuple(int(arr.shape[o]) for o in arr.format.order)
     return data.reshape(storage_shape).transpose(arg_order)
 
 
